@@ -3,6 +3,7 @@ package middleware
 import (
 	"log/slog"
 	"net/http"
+	"net/url"
 	"reservoir/webserver/dashboard/csp"
 )
 
@@ -22,7 +23,16 @@ func Harden(next http.Handler) http.Handler {
 		origin := r.Header.Get("Origin")
 
 		isSame := origin == "" || (site == "" || site == "same-origin" || site == "same-site")
-		allowed := isSame
+
+		// The checks above only look at one header each when the other is missing. A request is
+		// cross-site whenever the browser says so, or whenever it names an origin other than this host.
+		crossSite := site == "cross-site"
+		if origin != "" {
+			if originURL, err := url.Parse(origin); err != nil || originURL.Host != r.Host {
+				crossSite = true
+			}
+		}
+		allowed := isSame && !crossSite
 
 		if !allowed {
 			slog.Warn("Cross-site request blocked", "method", r.Method, "path", r.URL.Path, "remote", r.RemoteAddr, "origin", origin, "site", site)
